@@ -15,6 +15,16 @@ func vC15Docs(k int) (JsonNode, JsonNode) {
 		return vNumArray(n), vNumArray(n)
 	case 1:
 		return vObjDoc(0), vObjDoc(0)
+	case 3:
+		// array -> object -> array: objects that are hashed as array members and hold arrays
+		mk := func() jsonArray {
+			a := make(jsonArray, vChoice(vParam("M", 1)+1))
+			for i := range a {
+				a[i] = jsonObject{"t": vNumArray(2)}
+			}
+			return a
+		}
+		return mk(), mk()
 	default:
 		return jsonObject{"k": vNumArray(2)}, jsonObject{"k": vNumArray(2)}
 	}
@@ -28,8 +38,8 @@ func VerifC15History() {
 	if vKnown("hash.alias") {
 		vAssumeNoHashAlias(a, b)
 	}
+	aj, bj := a.Json(), b.Json() // before the first call that could touch the documents
 	d1 := a.Diff(b, opts...)
-	aj, bj := a.Json(), b.Json()
 	r0 := a.Diff(b, opts...).Render()
 	p0, pe0 := a.Diff(b, opts...).RenderPatch()
 	m0, me0 := a.Diff(b, opts...).RenderMerge()
